@@ -290,9 +290,13 @@ impl LazyFormatContext {
                 #[cfg(feature = "expression")] Some(functions),
                 #[cfg(feature = "expression")] Some(parameters)
             );
-            *self.data.lock().unwrap() = Some(context);
+            *self.data.lock().unwrap_or_else(|e| e.into_inner()) = Some(context);
         });
-        self.data.lock().unwrap()
+        // The formatting calls hold this guard while tag summarizers run. If
+        // one of them panics the mutex is poisoned, but the context itself
+        // has not been modified, so later callers can go on using it instead
+        // of panicking in turn for the rest of the process.
+        self.data.lock().unwrap_or_else(|e| e.into_inner())
     }
 }
 
